@@ -43,7 +43,7 @@ theorem step_spec {v : Sym} (hv : v.ret = .bool ∧ v.params = []) (tok : Bool) 
     intro kv hkv
     simp only [List.mem_cons, List.not_mem_nil, or_false] at hkv
     subst hkv
-    exact ⟨v, rfl, hv.2, hv.1, wb_bool tok⟩
+    exact ⟨v, rfl, hv.2, (wb_bool tok).1, by rw [(wb_bool tok).2, hv.1]⟩
   have s1 := substT_spec ok1 f hf.1 hqf
   have hin : WB (substT [(Term.sym v, Term.bool tok)] f) := ⟨s1.1.1, by rw [s1.1.2]; exact hf.2⟩
   have hinq : (substT [(Term.sym v, Term.bool tok)] f).isQF = true :=
@@ -54,7 +54,7 @@ theorem step_spec {v : Sym} (hv : v.ret = .bool ∧ v.params = []) (tok : Bool) 
     intro kv hkv
     simp only [List.mem_cons, List.not_mem_nil, or_false] at hkv
     subst hkv
-    exact ⟨v, rfl, hv.2, hv.1, hin⟩
+    exact ⟨v, rfl, hv.2, hin.1, by rw [hin.2, hv.1]⟩
   have s2 := substT_spec ok2 f hf.1 hqf
   refine ⟨⟨s2.1.1, by rw [selfSubStep, s2.1.2]; exact hf.2⟩, s2.2.1 (fun kv hkv => by
       simp only [List.mem_cons, List.not_mem_nil, or_false] at hkv
